@@ -411,18 +411,18 @@ Proof. reflexivity. Qed.
 (** * Part C — creator chain                                                                   *)
 
 Lemma task_ind' : forall P : task -> Prop,
-  (forall n, P (Task n None)) -> (forall n c, P c -> P (Task n (Some c))) -> forall t, P t.
-Proof. intros P H0 H1. fix IH 1. intros [n [c|]]; [apply H1, IH | apply H0]. Qed.
+  (forall n s f, P (Task n s f None)) -> (forall n s f c, P c -> P (Task n s f (Some c))) -> forall t, P t.
+Proof. intros P H0 H1. fix IH 1. intros [n s f [c|]]; [apply H1, IH | apply H0]. Qed.
 
 (* the task and each task that created it, outermost first *)
 Fixpoint ancestors (t : task) : list task :=
   match t with
-  | Task n None => [t]
-  | Task n (Some c) => ancestors c ++ [t]
+  | Task _ _ _ None => [t]
+  | Task _ _ _ (Some c) => ancestors c ++ [t]
   end.
 
 Fixpoint depth (t : task) : nat :=
-  match t with Task _ None => O | Task _ (Some c) => S (depth c) end.
+  match t with Task _ _ _ None => O | Task _ _ _ (Some c) => S (depth c) end.
 
 (* every entry is the creator of the next one *)
 Fixpoint linked (l : list task) : Prop :=
@@ -431,17 +431,15 @@ Fixpoint linked (l : list task) : Prop :=
   | _ => True
   end.
 
-Lemma traceback_step : forall n c, traceback (Task n (Some c)) = traceback c ++ [n].
+Lemma traceback_step : forall n s f c,
+  traceback (Task n s f (Some c)) = traceback c ++ [entry_of (Task n s f (Some c))].
 Proof. intros. unfold traceback. simpl. reflexivity. Qed.
 
 Lemma traceback_is_rec : forall t, traceback t = traceback_rec t.
 Proof.
-  induction t as [n|n c IH] using task_ind'; [reflexivity|].
+  induction t as [n s f|n s f c IH] using task_ind'; [reflexivity|].
   rewrite traceback_step, IH. reflexivity.
 Qed.
-
-Lemma linked_snoc : forall l a b, linked (l ++ [a]) -> last (l ++ [a]) b = a.
-Proof. intros l a b _. induction l as [|x l IH]; [reflexivity|]. simpl. destruct (l ++ [a]) eqn:E; [destruct l; discriminate | exact IH]. Qed.
 
 Lemma last_snoc : forall (l : list task) a b, last (l ++ [a]) b = a.
 Proof. intros l a b. induction l as [|x l IH]; [reflexivity|]. simpl. destruct (l ++ [a]) eqn:E; [destruct l; discriminate | exact IH]. Qed.
@@ -457,39 +455,66 @@ Proof.
 Qed.
 
 Lemma ancestors_nonempty : forall t, ancestors t <> [].
-Proof. intros [n [c|]]; simpl; [destruct (ancestors c); discriminate | discriminate]. Qed.
+Proof. intros [n s f [c|]]; simpl; [destruct (ancestors c); discriminate | discriminate]. Qed.
 
 Lemma ancestors_last : forall t d, last (ancestors t) d = t.
-Proof. intros [n [c|]] d; simpl; [apply last_snoc | reflexivity]. Qed.
+Proof. intros [n s f [c|]] d; simpl; [apply last_snoc | reflexivity]. Qed.
 
-(* format_asynq_stack() lists the active task and each task that created it, outermost first *)
+(* what one entry looks like: the "File .. in <function>" form exactly when the task has a frame
+   whose source line can be found; the str(task) form otherwise -- also when _traceback_line
+   raises.  Either way the entry is the one of this task. *)
+Theorem entry_of_spec : forall t,
+  entry_name (entry_of t) = tk_name t /\
+  (entry_of t = EFrame (tk_name t) <-> tk_frame t <> FrGone /\ tk_src t = SrcFile) /\
+  (entry_of t = EStr (tk_name t) <-> tk_frame t = FrGone \/ tk_src t = SrcNone) /\
+  (traceback_line t = None <-> tk_frame t <> FrGone /\ tk_src t = SrcNone).
+Proof.
+  intros [n s f c]. unfold entry_of, traceback_line. simpl.
+  destruct f, s; simpl; repeat split; intros; try discriminate; try tauto; try congruence;
+    try (left; reflexivity); try (right; reflexivity);
+    try (destruct H as [H|H]; discriminate);
+    try (destruct H as [H1 H2]; congruence).
+Qed.
+
+(* format_asynq_stack() lists the active task and each task that created it, outermost first --
+   whatever the frame state and source kind of every task on the chain *)
 Theorem creator_chain : forall t,
-  traceback t = map tk_name (ancestors t) /\                   (* one entry per task of the chain ... *)
+  traceback t = map entry_of (ancestors t) /\                  (* one entry per task of the chain ... *)
+  map entry_name (traceback t) = map tk_name (ancestors t) /\  (* ... each naming its task ...        *)
   last (ancestors t) t = t /\                                  (* ... ending with the task itself     *)
   (exists r rest, ancestors t = r :: rest /\ tk_creator r = None) /\  (* starting at a task nobody created *)
   linked (ancestors t) /\                                      (* each one created the next           *)
   List.length (traceback t) = S (depth t).
 Proof.
-  induction t as [n|n c IH] using task_ind'.
-  - simpl. repeat split; eauto.
-  - destruct IH as [Htb [Hlast [[r [rest [Hanc Hroot]]] [Hlink Hlen]]]].
-    rewrite traceback_step. simpl. repeat split.
-    + rewrite map_app, Htb. reflexivity.
-    + apply last_snoc.
-    + rewrite Hanc. exists r, (rest ++ [Task n (Some c)]). split; [reflexivity | exact Hroot].
-    + apply (linked_app_one _ _ c); [apply ancestors_nonempty | exact Hlink |].
-      simpl. now rewrite ancestors_last.
-    + rewrite app_length, Hlen. simpl. lia.
+  assert (Hmain : forall t,
+    traceback t = map entry_of (ancestors t) /\
+    last (ancestors t) t = t /\
+    (exists r rest, ancestors t = r :: rest /\ tk_creator r = None) /\
+    linked (ancestors t) /\
+    List.length (traceback t) = S (depth t)).
+  { induction t as [n s f|n s f c IH] using task_ind'.
+    - simpl. repeat split; eauto.
+    - destruct IH as [Htb [Hlast [[r [rest [Hanc Hroot]]] [Hlink Hlen]]]].
+      rewrite traceback_step. simpl ancestors. simpl depth. repeat split.
+      + rewrite map_app, Htb. reflexivity.
+      + apply last_snoc.
+      + rewrite Hanc. exists r, (rest ++ [Task n s f (Some c)]). split; [reflexivity | exact Hroot].
+      + apply (linked_app_one _ _ c); [apply ancestors_nonempty | exact Hlink |].
+        simpl. now rewrite ancestors_last.
+      + rewrite app_length, Hlen. simpl. lia. }
+  intros t. destruct (Hmain t) as [Htb [Hlast [Hroot [Hlink Hlen]]]].
+  repeat split; try assumption.
+  rewrite Htb, map_map. apply map_ext. intros a. apply (entry_of_spec a).
 Qed.
 
-(* the code as found: recursion, one interpreter frame per creator; with a stack budget it fails
-   exactly on chains that are too long (the finding), and agrees with the loop otherwise *)
+(* the code as first found: recursion, one interpreter frame per creator; with a stack budget it
+   fails exactly on chains that are too long (the finding), and agrees with the loop otherwise *)
 Theorem traceback_rec_budget_spec : forall b t,
   traceback_rec_budget b t = if Nat.ltb (depth t) b then Some (traceback t) else None.
 Proof.
   induction b as [|b IH]; intros t.
   - reflexivity.
-  - destruct t as [n [c|]]; simpl.
+  - destruct t as [n s f [c|]]; simpl.
     + rewrite IH. change (Nat.ltb (S (depth c)) (S b)) with (Nat.ltb (depth c) b).
       destruct (Nat.ltb (depth c) b); [rewrite traceback_step; reflexivity | reflexivity].
     + reflexivity.
@@ -500,25 +525,98 @@ Fixpoint level_names (i : Z) (n : nat) : list tname :=
 
 Definition by_parent (c : created) : bool := match c with ByParent | BySync => true | _ => false end.
 
-Lemma deepest_by_parent : forall cs i t, forallb by_parent cs = true ->
-  traceback (deepest i t cs) = traceback t ++ level_names (i + 1)%Z (List.length cs).
+(* the statement's reading of "that task and each task that created it" for a chain description:
+   [acc] = the names for level i, outermost first *)
+Fixpoint expected_names (i : Z) (acc : list tname) (cs : list (created * src)) : list tname :=
+  match cs with
+  | [] => acc
+  | (c, _) :: cs' =>
+    expected_names (i + 1)%Z
+      (match c with
+       | ByParent | BySync => acc ++ [TL (i + 1)%Z]
+       | Pre => [TL (i + 1)%Z]
+       | ByHelper | ByFailedHelper _ => acc ++ [TH (i + 1)%Z; TL (i + 1)%Z]
+       end) cs'
+  end.
+
+Definition names (t : task) : list tname := map entry_name (traceback t).
+
+Lemma names_step : forall n s f c, names (Task n s f (Some c)) = names c ++ [n].
 Proof.
-  induction cs as [|c cs IH]; intros i t H; simpl.
+  intros. unfold names. rewrite traceback_step, map_app. simpl.
+  now rewrite (proj1 (entry_of_spec (Task n s f (Some c)))).
+Qed.
+
+Lemma names_root : forall n s f, names (Task n s f None) = [n].
+Proof. intros. unfold names, traceback. simpl. now rewrite (proj1 (entry_of_spec (Task n s f None))). Qed.
+
+Lemma deepest_names : forall cs i t,
+  names (deepest i t cs) = expected_names i (names t) cs.
+Proof.
+  induction cs as [|[c s] cs IH]; intros i t; simpl; [reflexivity|].
+  rewrite IH. f_equal.
+  destruct c; simpl; rewrite ?names_step, ?names_root, <- ?app_assoc; reflexivity.
+Qed.
+
+(* every creation kind, every source kind at every level: the entries name exactly the tasks the
+   statement asks for, outermost first; no entry is lost or added because some task's source line
+   cannot be found *)
+Theorem stack_names : forall s0 cs,
+  map entry_name (stack_in_deepest s0 cs) = expected_names 0%Z [TL 0%Z] cs.
+Proof.
+  intros. unfold stack_in_deepest. change (names (deepest 0 (Task (TL 0) s0 FrLive None) cs) = expected_names 0 [TL 0%Z] cs).
+  rewrite deepest_names, names_root. reflexivity.
+Qed.
+
+Lemma expected_by_parent : forall cs i acc, forallb by_parent (map fst cs) = true ->
+  expected_names i acc cs = acc ++ level_names (i + 1)%Z (List.length cs).
+Proof.
+  induction cs as [|[c s] cs IH]; intros i acc H; simpl.
   - now rewrite app_nil_r.
   - simpl in H. apply andb_true_iff in H. destruct H as [Hc H].
-    rewrite (IH _ _ H). destruct c; try discriminate; simpl; rewrite traceback_step, <- app_assoc; reflexivity.
+    destruct c; try discriminate; rewrite (IH _ _ H), <- app_assoc; reflexivity.
 Qed.
 
 (* inside a task at depth d (each level created by the one above) the stack has d+1 entries,
-   outermost first *)
-Theorem stack_depth_plus_one : forall cs, forallb by_parent cs = true ->
-  stack_in_deepest cs = level_names 0%Z (S (List.length cs)).
-Proof. intros cs H. unfold stack_in_deepest. rewrite (deepest_by_parent cs 0%Z _ H). reflexivity. Qed.
+   outermost first, for every assignment of source kinds to the levels *)
+Theorem stack_depth_plus_one : forall s0 cs, forallb by_parent (map fst cs) = true ->
+  map entry_name (stack_in_deepest s0 cs) = level_names 0%Z (S (List.length cs)).
+Proof. intros s0 cs H. rewrite stack_names, (expected_by_parent cs 0%Z _ H). reflexivity. Qed.
+
+(* the form of each entry in such a chain: the levels are all suspended or running, so an entry
+   is the "File .." line iff that level's source can be found *)
+Fixpoint level_entries (i : Z) (ss : list src) : list entry :=
+  match ss with
+  | [] => []
+  | s :: ss' => (match s with SrcFile => EFrame (TL i) | SrcNone => EStr (TL i) end) :: level_entries (i + 1)%Z ss'
+  end.
+
+Lemma deepest_by_parent_entries : forall cs i t, forallb by_parent (map fst cs) = true ->
+  traceback (deepest i t cs) = traceback t ++ level_entries (i + 1)%Z (map snd cs).
+Proof.
+  induction cs as [|[c s] cs IH]; intros i t H; simpl.
+  - now rewrite app_nil_r.
+  - simpl in H. apply andb_true_iff in H. destruct H as [Hc H].
+    rewrite (IH _ _ H). destruct c; try discriminate; simpl; rewrite traceback_step, <- app_assoc;
+      destruct s; reflexivity.
+Qed.
+
+Theorem stack_entry_forms : forall s0 cs, forallb by_parent (map fst cs) = true ->
+  stack_in_deepest s0 cs = level_entries 0%Z (s0 :: map snd cs).
+Proof.
+  intros s0 cs H. unfold stack_in_deepest. rewrite (deepest_by_parent_entries cs 0%Z _ H).
+  destruct s0; reflexivity.
+Qed.
 
 Example stack_example :
-  stack_in_deepest [ByParent; ByHelper; BySync; Pre; ByParent] = [TL 4; TL 5]%Z /\
-  stack_in_deepest [ByParent; ByHelper] = [TL 0; TL 1; TH 2; TL 2]%Z.
-Proof. split; reflexivity. Qed.
+  stack_in_deepest SrcFile [(ByParent, SrcFile); (ByHelper, SrcFile); (BySync, SrcFile); (Pre, SrcFile); (ByParent, SrcFile)]
+    = [EFrame (TL 4); EFrame (TL 5)]%Z /\
+  stack_in_deepest SrcFile [(ByParent, SrcFile); (ByHelper, SrcFile)]
+    = [EFrame (TL 0); EFrame (TL 1); EStr (TH 2); EFrame (TL 2)]%Z /\
+  (* a source-less task in the middle of the chain, and a failed source-less helper *)
+  stack_in_deepest SrcFile [(ByParent, SrcFile); (ByParent, SrcNone); (ByFailedHelper SrcNone, SrcFile)]
+    = [EFrame (TL 0); EFrame (TL 1); EStr (TL 2); EStr (TH 3); EFrame (TL 3)]%Z.
+Proof. repeat split; reflexivity. Qed.
 
 (* ========================================================================================== *)
 (** * Part D — str / repr / dump never raise                                                   *)
